@@ -22,7 +22,13 @@ const (
 	shapeMixedEnc     = 3 // raw blobs, stored (level 0) and best-compression zlib blobs next to default zlib blobs; every third block holds three groups
 )
 
-var shapeNames = []string{"", " uneven-blocks", " naturally-empty-blocks", " raw-and-zlib-blobs"}
+var shapeNames = []string{"", " uneven-blocks", " naturally-empty-blocks", " raw-and-zlib-blobs", " large-raw-blocks-among-small-zlib-blocks"}
+
+// shapeBigRaw: block 0 and every 7th block is an uncompressed blob of 60 ways (a few KB), the
+// others are default-zlib blobs of two objects - a decoder that holds on to the memory of a raw
+// payload (the read buffer it sits in) while the reader has long moved on uses it for many later,
+// smaller blocks. (seeded change C02 round 12)
+const shapeBigRaw = 4
 
 // group returns one primitive group of k objects of the given kind (0 dense,
 // 1 ways, 2 relations) with ids base+first .. base+first+k-1, in the style of
@@ -98,6 +104,13 @@ func shapedFile(shape, b int, header bool) *pbfgen.File {
 				case 3:
 					blk.Groups = []pbfgen.Group{{}, {}}
 				}
+			}
+		case shapeBigRaw:
+			if i%7 == 0 {
+				blk.Groups = []pbfgen.Group{group(1, base, 1, 60)}
+				blk.Enc.Raw = true
+			} else {
+				blk.Groups = []pbfgen.Group{group(i%3, base, 1, 2)}
 			}
 		case shapeMixedEnc:
 			if i%3 == 2 {
